@@ -5,5 +5,6 @@ INIT Init
 NEXT Next
 INVARIANT UnitInverses
 INVARIANT RjLaws
+INVARIANT RjHomogeneous
 INVARIANT DensityLaws
 INVARIANT Emit
